@@ -219,6 +219,10 @@ func structuredCases(seen map[string]bool) []obs {
 	for _, ts := range m {
 		add(ts, false)
 	}
+	// valid arithmetic expansions as the argument of a simple command
+	for _, w := range hxgram.ArithWords() {
+		add([]hxgram.Tok{{K: hxgram.KName, T: "echo"}, {K: hxgram.KWord, T: w}}, true)
+	}
 	return cases
 }
 
